@@ -264,3 +264,18 @@ Proof.
   split; [|reflexivity].
   repeat constructor; simpl; try discriminate; try lia.
 Qed.
+
+(* ------------------------------------------------------------------ superseded _write_bounds (before C01-fix3-3) *)
+Definition b_plain : bnds := {| b_n := 2; b_ncvar := None; b_ncdim := None |}.
+Definition b_named : bnds := {| b_n := 2; b_ncvar := None; b_ncdim := Some "nv" |}.
+Definition w_after_first_bounds : wstate := snd (write_bounds_old (Some b_plain) ["t"] "t" w0).
+
+Lemma bounds_dimension_name_old_refuted :
+  exists w b cdims cvar, b_ncdim b = Some "nv" /\
+    ~ In "nv" (map fst (w_dims (snd (write_bounds_old (Some b) cdims cvar w)))) /\
+    In "nv" (map fst (w_dims (snd (write_bounds (Some b) cdims cvar w)))).
+Proof.
+  exists w_after_first_bounds, b_named, ["h"], "h". split; [reflexivity|]. split.
+  - vm_compute. intuition discriminate.
+  - vm_compute. right; left; reflexivity.
+Qed.
